@@ -865,6 +865,66 @@ func ruleCRASH3(c *Ctx) {
 			handled[v] = width
 		}
 	}
+	// single-character escapes looked up in a constant table in the default arm:
+	//   default: v, ok := table[selector]; if !ok { panic }; …
+	for _, cl := range esw.Body.List {
+		cc := cl.(*ast.CaseClause)
+		if cc.List != nil || idxObj == nil {
+			continue
+		}
+		var tblInit *ast.CompositeLit
+		for _, st := range cc.Body {
+			as, ok := st.(*ast.AssignStmt)
+			if !ok || len(as.Lhs) != 2 || len(as.Rhs) != 1 {
+				continue
+			}
+			ix, ok := ast.Unparen(as.Rhs[0]).(*ast.IndexExpr)
+			if !ok || !sameExpr(resolveVia(info, ueDefs, ix.Index), resolveVia(info, ueDefs, esw.Tag)) {
+				continue
+			}
+			okObj := usesObj(info, as.Lhs[1])
+			// a miss must end in the panic
+			guarded := false
+			for _, st2 := range cc.Body {
+				if ifs, isIf := st2.(*ast.IfStmt); isIf && st2.Pos() > st.Pos() {
+					if u, isNot := ast.Unparen(ifs.Cond).(*ast.UnaryExpr); isNot && u.Op == token.NOT && usesObj(info, u.X) == okObj && clauseHasPanic(info, ifs.Body.List) {
+						guarded = true
+					}
+				}
+			}
+			if guarded {
+				tblInit, _ = ast.Unparen(pkgVarInit(p, pk, usesObj(info, ix.X))).(*ast.CompositeLit)
+			}
+		}
+		if tblInit == nil {
+			continue
+		}
+		env := map[string]int64{}
+		for k2, v2 := range defaults {
+			env[k2] = v2
+		}
+		adv, okAdv := int64(0), true
+		for _, st := range append(append([]ast.Stmt{}, cc.Body...), tail...) {
+			d, ok := advanceOf(st, env)
+			if !ok {
+				okAdv = false
+			}
+			adv += d
+		}
+		for _, el := range tblInit.Elts {
+			kv, ok := el.(*ast.KeyValueExpr)
+			if !ok {
+				continue
+			}
+			if v, isC := constInt(info, kv.Key); isC {
+				handled[v] = 0
+				if !okAdv || adv != 2 {
+					okWidths = false
+					widthWhy = fmt.Sprintf("escape %q (looked up in a table) consumes 2 characters but one trip through the loop advances the index by %d", rune(v), adv)
+				}
+			}
+		}
+	}
 	c.check(okWidths, rule, "parser.unescape/index-arithmetic", p.Pos(esw.Pos()), "each escape arm advances the index by exactly the characters it consumed", "escape arm arithmetic is inconsistent: "+widthWhy)
 
 	gt, err := decodeGenTables(p, "internal/parser")
@@ -1283,7 +1343,9 @@ func ruleCRASH6(c *Ctx) {
 	c.check(okMain, rule, "cmd/lox.main/exit-status", p.Pos(mainFd.Pos()), "a non-nil error from realMain ends the process with a non-zero status after printing it", "main does not exit non-zero when realMain reports an error")
 	// realMain: `return nil` only after Generate returned true (or after --help)
 	g := p.CFG(pk, rm)
-	genCalls := findCalls(info, rm.Body, false, func(fn *types.Func, _ *ast.CallExpr) bool { return fullName(fn) == modPath+"/internal/codegen.Generate" })
+	genCalls := findCalls(info, rm.Body, false, func(fn *types.Func, _ *ast.CallExpr) bool {
+		return fullName(fn) == modPath+"/internal/codegen.Generate"
+	})
 	okReal := len(genCalls) == 1
 	if okReal {
 		var okVar types.Object
@@ -1523,6 +1585,15 @@ func ruleCRASH7(c *Ctx) {
 						if w, ok := par[id].(*ast.AssignStmt); ok {
 							for _, l := range w.Lhs {
 								if l == ast.Expr(id) {
+									return true
+								}
+							}
+						}
+						// handed back together with the error (or a false ok flag): the caller
+						// decides, which is the idiom this rule checks at the caller
+						if rs, ok := par[id].(*ast.ReturnStmt); ok && len(rs.Results) >= 2 {
+							for _, other := range rs.Results {
+								if usesObj(info, other) == errObj || exprString(other) == "false" {
 									return true
 								}
 							}
